@@ -246,9 +246,9 @@ class Ctx:
     def unknown(self, name, detail, backend="engine"):
         return self._record(name, "unknown", backend, 0.0, detail=detail)
 
-    def explore(self, thunk, stubs=None, max_paths=4096, prune=True, name="", extra_globals=None):
+    def explore(self, thunk, stubs=None, max_paths=4096, prune=True, name="", extra_globals=None, constants=None):
         ex = Explorer(max_paths=max_paths, prune=prune, name=name or self.task)
-        with W.World(stubs=stubs, extra_globals=extra_globals):
+        with W.World(stubs=stubs, extra_globals=extra_globals, constants=constants):
             ex.run(thunk)
         return ex
 
